@@ -73,7 +73,36 @@ def _adv_node(draw, depth, made):
 @st.composite
 def adversarial(draw, tier):
     made = []
+    if draw(st.integers(0, 7)) == 0:
+        return {"model": _ring(draw)}
     return {"model": _adv_node(draw, draw(st.integers(1, 3)), made)}
+
+
+def _ring(draw):
+    """rules that refer to each other by id through plain (0,1) variables, sitting in DIFFERENT branches: A -> B -> A or a
+    longer ring, possibly left open (then the model is a legal by-reference model), everything else clean"""
+    k = draw(st.integers(2, 4))
+    names = list(draw(st.permutations(["A", "B", "ab", "bc", "R9", "zz"])))[:k]
+    closed = draw(st.integers(0, 3)) > 0
+    other = ["x", "y", "z", "w"]
+    rules = []
+    for j, nme in enumerate(names):
+        nxt = names[(j + 1) % k]
+        ch = [{"k": "leaf", "id": other[j], "b": [0, 1]}]
+        if closed or j < k - 1:
+            ch.append({"k": "leaf", "id": nxt, "b": [0, 1]})
+        node = {"k": draw(st.sampled_from(["All", "Any", "AtLeast"])), "id": nme, "c": ch}
+        if node["k"] == "AtLeast":
+            node["v"], node["s"] = 1, None
+        rules.append(node)
+    # spread over branches: some rules wrapped one level deeper
+    kids = []
+    for j, r in enumerate(rules):
+        if draw(st.booleans()):
+            kids.append({"k": draw(st.sampled_from(["Any", "All"])), "id": draw(st.sampled_from([None, "W%d" % j])), "c": [r, {"k": "leaf", "id": "u%d" % j, "b": [0, 1]}]})
+        else:
+            kids.append(r)
+    return {"k": "All", "id": draw(st.sampled_from(["Top", None])), "c": list(draw(st.permutations(kids)))}
 
 
 def _build(case, ev):
